@@ -126,3 +126,48 @@ func (u *Universe) frameMustReadAll(prop string) []FrameResult {
 	}
 	return out
 }
+
+// groundNonEmptyGlobal: a package-level slice is initialised by a composite
+// literal with at least one element and never assigned elsewhere.
+func (u *Universe) groundNonEmptyGlobal(pkgRel, name string, props []string) FrameResult {
+	r := FrameResult{Name: "ground:init-" + name, Props: props, Backend: "ground"}
+	p := u.pkgs[garblePath+"/"+pkgRel]
+	if pkgRel == "" {
+		p = u.mainPkg()
+	}
+	if p == nil {
+		r.Detail = "package not loaded"
+		return r
+	}
+	obj := p.Types.Scope().Lookup(name)
+	if obj == nil {
+		r.Detail = "variable not found"
+		return r
+	}
+	n := -1
+	written := false
+	for _, f := range p.Syntax {
+		ast.Inspect(f, func(nd ast.Node) bool {
+			switch nd := nd.(type) {
+			case *ast.ValueSpec:
+				for i, id := range nd.Names {
+					if p.TypesInfo.Defs[id] == obj && i < len(nd.Values) {
+						if cl, ok := nd.Values[i].(*ast.CompositeLit); ok {
+							n = len(cl.Elts)
+						}
+					}
+				}
+			case *ast.AssignStmt:
+				for _, l := range nd.Lhs {
+					if id, ok := ast.Unparen(l).(*ast.Ident); ok && p.TypesInfo.ObjectOf(id) == obj {
+						written = true
+					}
+				}
+			}
+			return true
+		})
+	}
+	r.OK = n >= 1 && !written
+	r.Detail = fmt.Sprintf("%s is initialised with %d elements; assigned elsewhere: %v", name, n, written)
+	return r
+}
